@@ -324,3 +324,5 @@ def run(ctx):
     # positive rescaling keeps mean / variance: per-field degrees of Statistics.__mul__ (shared with C06.a)
     from rules import c06
     c06.check_stats_mul(ctx, "C14.b", m)
+    # division scales the statistics by exactly the reciprocal of the divisor (shared with C06.a)
+    ctx.borrow("C06", ("HistogramBase.__itruediv__:scalar", "HistogramBase.__imul__:scalar"), "C14.b", floor=2)
